@@ -237,6 +237,22 @@ def run(ctx, chk):
                 rank = {"proved": 0, "possible": 1, "definite": 2, "reached": 2}[e.status]
                 if key not in seen or rank > seen[key][0]:
                     seen[key] = (rank, e)
+            if any(rank == 1 for rank, _ in seen.values()):
+                # witness search for the undecided sites: the same run restricted to sub-cases of the inputs (every memory
+                # byte FFh or 00h, input lines of one length).  A site that definitely fails in a sub-case fails for an input.
+                for cell, ln in ((255, 300), (255, 1), (0, 0), (1, 300)):
+                    I2 = Interp(P)
+                    I2.range_hints["]"] = (cell, cell)
+                    I2.pin_input_len = ln
+                    st2 = machine_state(I2, P)
+                    try:
+                        I2.run_fn(f, [RefV((0, "vm", ())), service_selector(ctx, f, ah)], st2)
+                    except Unsupported:
+                        continue
+                    for e in I2.events:
+                        if e.kind == "assert" and (e.akind, e.line) in seen and seen[(e.akind, e.line)][0] == 1 and e.status in ("definite", "reached"):
+                            e.witness = f"{e.witness} [with every memory byte {cell:02X}h and an input line of {ln} bytes]"
+                            seen[(e.akind, e.line)] = (2, e)
             for (akind, line), (rank, e) in sorted(seen.items(), key=lambda x: x[0][1]):
                 ops = ",".join(repr(v).split(" aff=")[-1].rstrip(">") if " aff=" in repr(v) else repr(v) for v in e.vals[:2])
                 if rank == 0:
